@@ -38,6 +38,11 @@ def main():
     name = os.path.basename(d.rstrip("/"))
     wt = f"/tmp/ev_{name}_{os.getpid()}"
     res = {"mutant": name, "property": pid, "when": time.strftime("%Y-%m-%d %H:%M:%S")}
+    if a.tests == "none" and os.path.exists(os.path.join(d, "result.json")):
+        old = json.load(open(os.path.join(d, "result.json")))      # keep the test confirmation of an earlier full evaluation
+        for k in ("tests", "tests_ok"):
+            if k in old:
+                res[k] = old[k]
     sh(f"git -C /repo worktree remove --force {wt}")
     rc, out = sh(f"git -C /repo worktree add -q --detach {wt} HEAD")
     assert rc == 0, out
